@@ -1,0 +1,355 @@
+//! Lock-trace instrumentation for the verification harness
+//!
+//! This module only exists if the crate is compiled with
+//! `RUSTFLAGS="--cfg oxidd_verif"`. It records, per thread, which of the
+//! manager's locks are currently held and — if switched on via [`enable()`] —
+//! appends one [`Event`] per lock operation to a global log that a test
+//! harness can retrieve via [`take_events()`] and replay against a model of
+//! the locking protocol.
+//!
+//! Conventions for the instrumented code:
+//!
+//! - [`acquired()`] (or [`token()`]) is called right *after* the lock
+//!   operation returned, [`released()`] (or the drop of the [`Token`]) happens
+//!   right *before* the unlock. Hence, the interval in which the log says "held"
+//!   is contained in the interval in which the lock is really held.
+//! - [`wait_begin()`] is called right before `Condvar::wait()` (which releases
+//!   the mutex and re-acquires it on wake-up), [`wait_end()`] right after.
+//! - [`join_begin()`] / [`join_end()`] bracket `install`/`join`/`broadcast` calls
+//!   of the worker pool as seen from the caller, [`sub_scope()`] marks the
+//!   closures that run inside the pool.
+//!
+//! While the log is switched off (the default), every hook is a load of one
+//! relaxed atomic.
+
+use std::cell::{Cell, RefCell};
+use std::sync::Mutex;
+use std::sync::atomic::{AtomicBool, AtomicU32, Ordering::Relaxed};
+
+/// Lock classes (mirrors the `Lock` type of the model)
+#[derive(Clone, Copy, PartialEq, Eq, PartialOrd, Ord, Hash, Debug)]
+pub enum Class {
+    /// The manager's `RwLock` (`Store::manager`)
+    Mgr,
+    /// `Manager::gc_ongoing` (try-lock only)
+    GcOngoing,
+    /// Mutex of the apply cache bucket with the given index
+    Bucket,
+    /// Mutex of the unique table for the level with the given index
+    Level,
+    /// `Store::state`
+    StoreState,
+    /// State mutex of the dynamic terminal manager
+    TermState,
+    /// `Store::gc_signal.0` (+ condition variable `.1`)
+    GcSignal,
+    /// `state` mutex (+ `cond`) of the concurrent sort in `set_var_order`
+    ReorderState,
+}
+
+impl Class {
+    /// Name used in the textual trace format
+    pub fn name(self) -> &'static str {
+        match self {
+            Class::Mgr => "mgr",
+            Class::GcOngoing => "gcOngoing",
+            Class::Bucket => "bucket",
+            Class::Level => "level",
+            Class::StoreState => "storeState",
+            Class::TermState => "termState",
+            Class::GcSignal => "gcSignal",
+            Class::ReorderState => "reorderState",
+        }
+    }
+}
+
+/// A lock: class and index (the index is 0 for the non-indexed classes)
+pub type LockId = (Class, u32);
+
+/// Lock mode
+#[derive(Clone, Copy, PartialEq, Eq, Hash, Debug)]
+pub enum Mode {
+    /// Shared (read) lock, only used for [`Class::Mgr`]
+    Shared,
+    /// Exclusive lock
+    Excl,
+}
+
+/// Kind of a worker pool call
+#[derive(Clone, Copy, PartialEq, Eq, Hash, Debug)]
+pub enum JoinKind {
+    /// `WorkerPool::install()`
+    Install,
+    /// `WorkerPool::join()`
+    Join,
+    /// `WorkerPool::broadcast()`
+    Broadcast,
+}
+
+/// What happened
+#[derive(Clone, Copy, PartialEq, Eq, Hash, Debug)]
+pub enum Kind {
+    /// Lock acquired. `blocking` is true for `lock()`, false for a successful
+    /// `try_lock()`.
+    Acq {
+        /// Lock mode
+        mode: Mode,
+        /// `lock()` (true) or successful `try_lock()` (false)
+        blocking: bool,
+    },
+    /// `try_lock()` failed
+    TryFail,
+    /// Lock released
+    Rel,
+    /// About to call `Condvar::wait()` on the guard of the lock
+    Wait,
+    /// `Condvar::wait()` returned (the lock is held again)
+    WaitEnd,
+    /// About to call into the worker pool
+    JoinBegin(JoinKind),
+    /// The call into the worker pool returned
+    JoinEnd(JoinKind),
+}
+
+/// Entry of the event log
+#[derive(Clone, PartialEq, Eq, Debug)]
+pub struct Event {
+    /// Small integer identifying the thread (see [`thread_names()`])
+    pub thread: u32,
+    /// Whether the code runs as a sub-task inside the worker pool
+    pub sub: bool,
+    /// Kind of event
+    pub kind: Kind,
+    /// Lock class (meaningless for `JoinBegin`/`JoinEnd`)
+    pub class: Class,
+    /// Lock index (meaningless for `JoinBegin`/`JoinEnd`)
+    pub idx: u32,
+    /// Locks held by the thread before the event, oldest first
+    pub held_before: Vec<LockId>,
+}
+
+static ENABLED: AtomicBool = AtomicBool::new(false);
+static NEXT_THREAD: AtomicU32 = AtomicU32::new(0);
+static LOG: Mutex<Vec<Event>> = Mutex::new(Vec::new());
+static THREADS: Mutex<Vec<(u32, String)>> = Mutex::new(Vec::new());
+
+thread_local! {
+    static THREAD: Cell<u32> = const { Cell::new(u32::MAX) };
+    static SUB: Cell<u32> = const { Cell::new(0) };
+    static HELD: RefCell<Vec<LockId>> = const { RefCell::new(Vec::new()) };
+}
+
+/// Switch the event log on or off (default: off)
+///
+/// Should only be toggled while no instrumented lock is held by any thread,
+/// otherwise the log contains releases without a matching acquisition.
+pub fn enable(on: bool) {
+    ENABLED.store(on, Relaxed);
+}
+
+/// Whether the event log is switched on
+#[inline(always)]
+pub fn enabled() -> bool {
+    ENABLED.load(Relaxed)
+}
+
+/// Remove and return all events logged so far (in the global order in which
+/// they were appended)
+pub fn take_events() -> Vec<Event> {
+    std::mem::take(&mut *LOG.lock().unwrap_or_else(|e| e.into_inner()))
+}
+
+/// Identifiers and names of all threads that logged at least one event
+pub fn thread_names() -> Vec<(u32, String)> {
+    THREADS.lock().unwrap_or_else(|e| e.into_inner()).clone()
+}
+
+/// Identifier of the current thread as used in the log
+pub fn current_thread() -> u32 {
+    THREAD.with(|t| {
+        let mut id = t.get();
+        if id == u32::MAX {
+            id = NEXT_THREAD.fetch_add(1, Relaxed);
+            t.set(id);
+            let name = std::thread::current().name().unwrap_or("").to_string();
+            THREADS
+                .lock()
+                .unwrap_or_else(|e| e.into_inner())
+                .push((id, name));
+        }
+        id
+    })
+}
+
+/// Locks the current thread holds according to the hooks, oldest first
+pub fn held() -> Vec<LockId> {
+    HELD.with(|h| h.borrow().clone())
+}
+
+#[cold]
+fn log(kind: Kind, class: Class, idx: u32) {
+    let thread = current_thread();
+    let sub = SUB.with(|s| s.get() != 0);
+    // The thread-local destructor may already have run (thread exit): then the
+    // thread holds nothing we know of.
+    let held_before = HELD.try_with(|h| h.borrow().clone()).unwrap_or_default();
+    let _ = HELD.try_with(|h| {
+        let mut h = h.borrow_mut();
+        match kind {
+            Kind::Acq { .. } => h.push((class, idx)),
+            Kind::Rel => {
+                if let Some(p) = h.iter().rposition(|&l| l == (class, idx)) {
+                    h.remove(p);
+                }
+            }
+            _ => {}
+        }
+    });
+    LOG.lock().unwrap_or_else(|e| e.into_inner()).push(Event {
+        thread,
+        sub,
+        kind,
+        class,
+        idx,
+        held_before,
+    });
+}
+
+/// The current thread acquired the lock (`blocking`: via `lock()` rather than
+/// a successful `try_lock()`)
+#[inline(always)]
+pub fn acquired(class: Class, idx: u32, mode: Mode, blocking: bool) {
+    if enabled() {
+        log(Kind::Acq { mode, blocking }, class, idx);
+    }
+}
+
+/// A `try_lock()` of the current thread failed
+#[inline(always)]
+pub fn try_failed(class: Class, idx: u32) {
+    if enabled() {
+        log(Kind::TryFail, class, idx);
+    }
+}
+
+/// The current thread is about to release the lock
+#[inline(always)]
+pub fn released(class: Class, idx: u32) {
+    if enabled() {
+        log(Kind::Rel, class, idx);
+    }
+}
+
+/// The current thread is about to call `Condvar::wait()` with the guard of the
+/// lock
+#[inline(always)]
+pub fn wait_begin(class: Class, idx: u32) {
+    if enabled() {
+        log(Kind::Wait, class, idx);
+    }
+}
+
+/// `Condvar::wait()` returned
+#[inline(always)]
+pub fn wait_end(class: Class, idx: u32) {
+    if enabled() {
+        log(Kind::WaitEnd, class, idx);
+    }
+}
+
+/// RAII token: logs the release of the lock when dropped
+///
+/// Declare it right after the guard (`let guard = m.lock(); let _tok =
+/// token(..);`) or as a field that is dropped before the guard.
+#[must_use]
+#[derive(Debug)]
+pub struct Token {
+    class: Class,
+    idx: u32,
+    armed: bool,
+}
+
+/// Log the acquisition of a lock and return a [`Token`] that logs its release
+#[inline(always)]
+pub fn token(class: Class, idx: u32, mode: Mode, blocking: bool) -> Token {
+    let armed = enabled();
+    if armed {
+        log(Kind::Acq { mode, blocking }, class, idx);
+    }
+    Token { class, idx, armed }
+}
+
+impl Token {
+    /// Log the release now (idempotent; the drop does nothing afterwards)
+    #[inline(always)]
+    pub fn release(&mut self) {
+        if self.armed {
+            self.armed = false;
+            // Also log if the log has been switched off in between such that
+            // the thread-local list of held locks stays consistent.
+            log(Kind::Rel, self.class, self.idx);
+        }
+    }
+
+    /// The lock this token stands for
+    #[inline(always)]
+    pub fn lock(&self) -> LockId {
+        (self.class, self.idx)
+    }
+}
+
+impl Drop for Token {
+    #[inline(always)]
+    fn drop(&mut self) {
+        self.release();
+    }
+}
+
+/// RAII guard for a call into the worker pool, see [`join_begin()`]
+#[must_use]
+#[derive(Debug)]
+pub struct JoinScope {
+    kind: JoinKind,
+    armed: bool,
+}
+
+/// The current thread is about to call `install`/`join`/`broadcast` of the
+/// worker pool; the end of the call is logged when the returned value is
+/// dropped
+#[inline(always)]
+pub fn join_begin(kind: JoinKind) -> JoinScope {
+    let armed = enabled();
+    if armed {
+        log(Kind::JoinBegin(kind), Class::Mgr, 0);
+    }
+    JoinScope { kind, armed }
+}
+
+impl Drop for JoinScope {
+    #[inline(always)]
+    fn drop(&mut self) {
+        if self.armed {
+            log(Kind::JoinEnd(self.kind), Class::Mgr, 0);
+        }
+    }
+}
+
+/// RAII guard marking code that runs as a sub-task inside the worker pool
+#[must_use]
+#[derive(Debug)]
+pub struct SubScope(());
+
+/// Mark the current thread as running a sub-task of the worker pool until the
+/// returned value is dropped (nestable)
+#[inline(always)]
+pub fn sub_scope() -> SubScope {
+    SUB.with(|s| s.set(s.get() + 1));
+    SubScope(())
+}
+
+impl Drop for SubScope {
+    #[inline(always)]
+    fn drop(&mut self) {
+        let _ = SUB.try_with(|s| s.set(s.get().saturating_sub(1)));
+    }
+}
